@@ -567,11 +567,14 @@ func (vm *Thread) run() {
 			vm.opPromise()
 		case bytecode.AWAIT:
 			promise := (*Promise)(vm.peek().Pointer())
+			vhook("await.lock.try", vm, promise)
 			promise.m.Lock()
+			vhook("await.lock.ok", vm, promise)
 
 			if !promise.IsResolved() {
 				// promise is not resolved, switching contexts
 				vm.state = awaitState
+				vhook("await.suspended", vm, promise)
 				return
 			}
 
@@ -580,6 +583,7 @@ func (vm *Thread) run() {
 			result := promise.result
 			stackTrace := promise.stackTrace
 			promise.m.Unlock()
+			vhook("await.fast", vm, promise)
 
 			if !err.IsUndefined() {
 				vm.pop()
@@ -609,7 +613,9 @@ func (vm *Thread) run() {
 		case bytecode.AWAIT_SYNC:
 			promise := (*Promise)(vm.peek().Pointer())
 
+			vhook("awaitsync.try", vm, promise)
 			result, stackTrace, err := promise.AwaitSync()
+			vhook("awaitsync.ok", vm, promise)
 			if !err.IsUndefined() {
 				vm.pop()
 				vm.rethrow(err, vm.BuildStackTracePrepend(stackTrace))
